@@ -1589,7 +1589,8 @@ class WassersteinDistanceNewton(VariationalWassersteinDistance):
                 """---------------""",
             )
 
-        # Newton iteration
+        # Newton iteration (define the counter also if no iteration is requested)
+        iter = 0
         for iter in range(num_iter):
             # It is possible that the linear solver fails. In this case, we simply
             # stop the iteration and return the current solution.
